@@ -607,4 +607,36 @@ theorem resolveLoop_gaveup (ans : Nat → Nat → Answer) (fs : List FileSpec) (
       simp only [errUnresolvable, hfd]
       exact ⟨_, rfl, rfl⟩
 
+/-! ## the `'\r'` alternative of `pos_to_linecol` -/
+
+/-- `pos_to_linecol` with the test `input[line_end] in '\n\r'` replaced by "true": one is
+always subtracted for the line end -/
+def posToLineColLF (input : List Char) (pos : Nat) : Nat × Int :=
+  let les := lineEnds input
+  let line := bisectLeft les pos
+  let col : Int := if line > 0 then (pos : Int) - (les.getD (line - 1) 0 : Int) - 1 else (pos : Int)
+  (line + 1, col + 1)
+
+/-- every entry of the line-end table is the offset of a `'\n'`, so the `in '\n\r'` test
+of `pos_to_linecol` always succeeds through its `'\n'` alternative (for every offset,
+also outside the text): the `'\r'` alternative never decides anything -/
+theorem posToLineCol_eq_LF (input : List Char) (pos : Nat) :
+    posToLineCol input pos = posToLineColLF input pos := by
+  unfold posToLineCol posToLineColLF
+  simp only
+  by_cases hl : bisectLeft (lineEnds input) pos > 0
+  · have hlt : bisectLeft (lineEnds input) pos - 1 < (lineEnds input).length := by
+      have := bisectLeft_le_length (lineEnds input) pos; omega
+    have hmem : (lineEnds input).getD (bisectLeft (lineEnds input) pos - 1) 0 ∈ lineEnds input := by
+      have h1 : (lineEnds input).getD (bisectLeft (lineEnds input) pos - 1) 0
+          = (lineEnds input)[bisectLeft (lineEnds input) pos - 1] := by
+        simp [List.getD_eq_getElem?_getD, List.getElem?_eq_getElem hlt]
+      rw [h1]; exact List.getElem_mem _
+    obtain ⟨j, hj, hs⟩ := lineEndsFrom_nl input 0 _ hmem
+    have hnl : input.getD ((lineEnds input).getD (bisectLeft (lineEnds input) pos - 1) 0) ' ' = '\n' := by
+      rw [hj]; simp [List.getD_eq_getElem?_getD, hs]
+    simp only [hl, if_true]
+    rw [if_pos (Or.inl hnl)]
+  · simp [hl]
+
 end LinkLoc
